@@ -431,6 +431,7 @@ fn spawn_worker(exe: &std::path::Path, tx: &mpsc::Sender<Msg>, i: usize, prop: &
         .expect("spawn worker");
     let so = ch.stdout.take().unwrap();
     let tx = tx.clone();
+    CHILD_PIDS.lock().unwrap().push(ch.id() as i32);
     std::thread::spawn(move || {
         for l in BufReader::new(so).lines().map_while(Result::ok) {
             let _ = tx.send(Msg::Line(i, l));
@@ -465,6 +466,18 @@ fn match_known(kfs: &[Value], prop: &str, class: &str, msg: &str) -> Option<Stri
     None
 }
 
+static CHILD_PIDS: std::sync::Mutex<Vec<i32>> = std::sync::Mutex::new(Vec::new());
+
+/// Workers that are still alive after the grace period are stuck in a real (OS-level) block -
+/// nothing the simulator can schedule around. End them so that nothing is left behind.
+fn kill_children() {
+    for pid in CHILD_PIDS.lock().unwrap().drain(..) {
+        unsafe {
+            libc::kill(pid, libc::SIGKILL);
+        }
+    }
+}
+
 /// One search phase: `jobs` worker processes of `exe`, restarted after a run that ended its
 /// process (deadlock), until the deadline.
 #[allow(clippy::too_many_arguments)]
@@ -489,10 +502,12 @@ fn run_phase(
     }
     let mut live = jobs;
     while live > 0 {
-        let m = match rx.recv_timeout(Duration::from_secs(budget_s + 120)) {
+        let left = deadline.saturating_sub(now_ms()) / 1000 + 60;
+        let m = match rx.recv_timeout(Duration::from_secs(left.min(budget_s + 60))) {
             Ok(m) => m,
             Err(_) => {
-                harness_errors.push("workers did not finish in time".into());
+                harness_errors.push(format!("{} worker process(es) did not come back within 60 s of the deadline (a real, OS-level block inside the code under test?); they were killed", live));
+                kill_children();
                 break;
             }
         };
@@ -534,6 +549,7 @@ fn run_phase(
             }
         }
     }
+    CHILD_PIDS.lock().unwrap().clear();
 }
 
 pub fn cmd_check(prop: &str, tier: &str) {
